@@ -17,7 +17,9 @@
 (*                                                                         *)
 (* An operation is a record                                                *)
 (*   [op, root, rowid, key, to, stop, fail, pro, lockfail,                 *)
-(*    nested, troot, pkcols, pkdef]                                        *)
+(*    nested, troot, pkcols, pkdef, nolock]                                *)
+(* nolock: the operation runs inside an explicit RLock .. RUnlock bracket  *)
+(* of the low level API (no lock/unlock events of its own).                *)
 (* nested = "rowid" / "pk": every index entry is mapped to its table row   *)
 (* (tree troot) the way indexed_select.go does, "" otherwise.              *)
 (* stop = k > 0: the row callback answers "done" on its k-th call;         *)
@@ -61,8 +63,9 @@ Rec(T, i) == T.ents[i].rec
 
 \* what each operation must deliver to the callback (entry ids, in order)
 BaseReference(T, o) ==
-    LET all == InOrder(T, o.root)
-    IN  CASE o.op \in {"table_scan", "index_scan"} -> all
+    LET all == IF o.op = "none" THEN <<>> ELSE InOrder(T, o.root)
+    IN  CASE o.op = "none" -> <<>>        \* schema inspection only (Tables, Indexes, Columns, Schema)
+          [] o.op \in {"table_scan", "index_scan"} -> all
           [] o.op \in {"rowid", "pk_rowid"} -> SelectSeq(all, LAMBDA i : NumCmp(T.ents[i].rowid, o.rowid) = 0)
           [] o.op = "scan_min" ->
                 \* the suffix starting at the first entry not less than the key
@@ -317,7 +320,8 @@ Run(T, o, cache0) ==
 
         Ctx(mode) == [key |-> o.key, to |-> o.to, mode |-> mode]
         Body(S) ==
-            CASE o.op = "table_scan" -> TIter(S, o.root, MaxRecursion)
+            CASE o.op = "none" -> S
+              [] o.op = "table_scan" -> TIter(S, o.root, MaxRecursion)
               [] o.op = "rowid" -> Lookup(S, o.root, o.rowid)
               [] o.op = "pk_rowid" ->        \* PKSelect on an INTEGER PRIMARY KEY table: callback iff found
                     LET S1 == Lookup(S, o.root, o.rowid)
@@ -336,11 +340,11 @@ Run(T, o, cache0) ==
         final ==
             IF o.pro = "none" THEN Body(start)
             ELSE IF o.lockfail THEN [start EXCEPT !.ev = <<<<"l", 0>>>>, !.err = "busy"]
-            ELSE LET S1 == Read([start EXCEPT !.ev = <<<<"L", 0>>>>], 1)
+            ELSE LET S1 == Read([start EXCEPT !.ev = IF o.nolock THEN <<>> ELSE <<<<"L", 0>>>>], 1)
                      S2 == IF S1.err # "" \/ o.pro = "hdr" THEN S1
                            ELSE [MIter(S1, 1, MaxRecursion) EXCEPT !.done = FALSE]
                      S3 == IF S2.err # "" THEN S2 ELSE Body(S2)
-                 IN  [S3 EXCEPT !.ev = Append(@, <<"U", 0>>)]
+                 IN  IF o.nolock THEN S3 ELSE [S3 EXCEPT !.ev = Append(@, <<"U", 0>>)]
     IN  [ev |-> final.ev, out |-> final.out, cbn |-> final.cbn, err |-> final.err,
          found |-> IF final.err = "" THEN final.found ELSE 0, reads |-> final.reads, cache |-> final.cache]
 
